@@ -151,6 +151,26 @@ let run_leaf toks =
                   let es = List.sort compare (List.map (fun ((sp, i), w) -> (Zr.to_int sp, Zr.to_int i, Zr.to_int w)) l) in
                   " " ^ string_of_int k ^ ":" ^ String.concat ";" (List.map (fun (a, b, c) -> Printf.sprintf "%d,%d,%d" a b c) es)) b' in
             String.concat "" (List.map seg cls) ^ "size=" ^ string_of_int (List.length b') ^ String.concat "" lists))
+  | "emed" :: size :: nseg :: rest ->
+      (* the model of EratMedium (64 bucket lists, one per wheel index): per segment the changed bytes, then the lists *)
+      let rec triples = function p :: i :: w :: r -> ((z p, z i), z w) :: triples r | _ -> [] in
+      let sz = Zr.to_int (z size) in
+      (match em_store_all [] (triples rest) with
+       | None -> "oob-store"
+       | Some b ->
+         (match em_run (nat_of_int (int_of_string nseg)) (nat_of_int (2 * sz + 10)) (z size) b with
+          | None -> "oob-or-fuel"
+          | Some (cls, b') ->
+            let seg cl =
+              let tbl = Hashtbl.create 64 in
+              List.iter (fun (bb, m) -> let k = Zr.to_int bb in Hashtbl.replace tbl k ((bb, m) :: (try Hashtbl.find tbl k with Not_found -> []))) cl;
+              let keys = List.sort_uniq compare (List.map (fun (bb, _) -> Zr.to_int bb) cl) in
+              String.concat "" (List.map (fun k -> string_of_int k ^ ":" ^ pr (byte_val (Hashtbl.find tbl k) (Zr.of_int k)) ^ " ") keys) ^ "| " in
+            let lists = List.mapi (fun k l ->
+                if l = [] then "" else
+                  let es = List.sort compare (List.map (fun (sp, i) -> (Zr.to_int sp, Zr.to_int i, k)) l) in
+                  " " ^ string_of_int k ^ ":" ^ String.concat ";" (List.map (fun (a, b, c) -> Printf.sprintf "%d,%d,%d" a b c) es)) b' in
+            String.concat "" (List.map seg cls) ^ "size=" ^ string_of_int (List.length b') ^ String.concat "" lists))
   | ["kernel"; l1; kb; a; b] ->
       (* the model kernel (segments of the geometry model, addSievingPrime, EratSmall cross-off over the extracted step table)
          on [a, b], a >= 7: number of surviving numbers in [a, b], their sum mod 2^61-1 and the first / last one.
